@@ -386,7 +386,7 @@ func c20(c *Ctx) {
 		for _, f := range engine.WithClosures(ha) {
 			for _, cs := range engine.Calls(f) {
 				cc := cs.Common()
-				if cc.IsInvoke() && cc.Method.Name() == "Append" && engine.IsNamed(cc.Value.Type(), "internal/state", "AppendOnlyMailbox") {
+				if cc.IsInvoke() && engine.MethodName(cc.Method) == "Append" && engine.IsNamed(cc.Value.Type(), "internal/state", "AppendOnlyMailbox") {
 					n++
 					call := cs.Instr.(*ssa.Call)
 					// the APPENDUID item uses the returned uid and is on the nil edge
@@ -559,7 +559,7 @@ func c20(c *Ctx) {
 			R.Check(!bad, "R20.5", c.name(cr)+"|hash-error-does-not-abort", P.Pos(ins.Pos()), "a hashing failure does not abort the recovery", "a failure of MessageHashesMap.Insert (message hash cannot be computed) makes actionCreateRecoveredMessage return: the rejected APPEND is then kept nowhere")
 			// insert precedes the row insert
 			for _, cs := range engine.Calls(cr) {
-				if cs.Common().IsInvoke() && cs.Common().Method.Name() == "CreateMessageAndAddToMailbox" {
+				if cs.Common().IsInvoke() && engine.MethodName(cs.Common().Method) == "CreateMessageAndAddToMailbox" {
 					R.Check(engine.InstrDominates(ins, cs.Instr), "R20.5", c.name(cr)+"|dedup-before-insert", P.Pos(cs.Pos()), "the dedup check precedes the row insert", "the message row is inserted before the dedup check")
 				}
 			}
@@ -784,7 +784,7 @@ func c20listedWhileNonEmpty(c *Ctx) {
 			fromRecovery = func(v ssa.Value, depth int) bool {
 				return engine.AnyBackward(v, engine.FlowOpts{Loads: true}, func(x ssa.Value) bool {
 					if call, ok := x.(*ssa.Call); ok {
-						if call.Call.IsInvoke() && call.Call.Method.Name() == "GetRecoveryMailboxID" {
+						if call.Call.IsInvoke() && engine.MethodName(call.Call.Method) == "GetRecoveryMailboxID" {
 							return true
 						}
 						if sc := call.Call.StaticCallee(); sc != nil && engine.BaseName(sc) == "GetRecoveryMailboxID" {
@@ -792,7 +792,7 @@ func c20listedWhileNonEmpty(c *Ctx) {
 						}
 					}
 					if fld, ok := x.(*ssa.Field); ok {
-						if call, ok := fld.X.(*ssa.Call); ok && call.Call.IsInvoke() && call.Call.Method.Name() == "GetRecoveryMailboxID" {
+						if call, ok := fld.X.(*ssa.Call); ok && call.Call.IsInvoke() && engine.MethodName(call.Call.Method) == "GetRecoveryMailboxID" {
 							return true
 						}
 					}
@@ -820,7 +820,7 @@ func c20listedWhileNonEmpty(c *Ctx) {
 				continue
 			}
 			n++
-			R.Check(cc.Method.Name() == "GetMailboxMessageCount", "R20.9", c.name(c.ownerFn(g))+"|read for the recovery mailbox", P.Pos(cs.Pos()), "GetMailboxMessageCount", "State.List decides about the recovery mailbox from "+cc.Method.Name()+" instead of its message count: a non-empty recovery mailbox can disappear from LIST")
+			R.Check(engine.MethodName(cc.Method) == "GetMailboxMessageCount", "R20.9", c.name(c.ownerFn(g))+"|read for the recovery mailbox", P.Pos(cs.Pos()), "GetMailboxMessageCount", "State.List decides about the recovery mailbox from "+engine.MethodName(cc.Method)+" instead of its message count: a non-empty recovery mailbox can disappear from LIST")
 		}
 	}
 	R.Min("R20.9", "index reads for the recovery mailbox in State.List", n, 1)
